@@ -452,6 +452,11 @@ def run_cli(args, stdin=None, env=None, timeout=60, cwd=None):
     e.pop("VERIF_HARNESS", None)
     if env:
         e.update(env)
+    if isinstance(stdin, tuple) and stdin[0] == "file":
+        # stdin redirected from a regular file (possibly empty)
+        with open(stdin[1], "rb") as fh:
+            p = subprocess.run([harness_bin()] + args, stdin=fh, capture_output=True, env=e, timeout=timeout, cwd=cwd)
+        return p.returncode, p.stdout, p.stderr
     if stdin is None:
         # not a char device, not piped data: use /dev/null (a char device) so the CLI sees "no stdin"
         with open("/dev/null", "rb") as dn:
